@@ -356,7 +356,9 @@ def u_fspoll(p):
 UNITS = [(u_simple, 6), (u_proc, 1), (u_tcp, 4), (u_pipe, 3), (u_udp, 3), (u_signal, 2), (u_fspoll, 2)]
 
 
-def gen_case(rng):
+def gen_case(rng, liveness=False):
+    """liveness=True (C01, see liveness_traces): additionally uv_ref / uv_unref on every kind in every
+    state (f<h> / g<h>), uv_loop_close attempts (Q), and not every handle is closed at the end."""
     p = Prog(rng)
     pool = [u for u, w in UNITS for _ in range(w)]
     nunits = rng.choice([1, 1, 2, 2, 3])
@@ -385,6 +387,18 @@ def gen_case(rng):
             p.on(key, "C%d" % h)
         elif p.n > 1:
             p.on("K%d" % rng.choice(hs), "C%d" % h)
+    if liveness:
+        # ref / unref at random places after the handle exists: top level and inside callbacks
+        for _ in range(rng.randint(0, 2 * p.n)):
+            h = rng.randrange(p.n)
+            op = rng.choice(["f%d", "g%d", "g%d"]) % h
+            first = [i for i, o in enumerate(p.ops) if o[0] == "I"][h]
+            if p.hooks and rng.random() < 0.3:
+                p.on(rng.choice(p.hooks), op)
+            else:
+                p.ops.insert(rng.randint(first + 1, len(p.ops)), op)
+        if rng.random() < 0.3:
+            p.add("Q")
     for h in before:
         p.add("C%d" % h)
     for _ in range(rng.choice([1, 2, 3])):
@@ -394,12 +408,60 @@ def gen_case(rng):
     for h in after:
         p.add("C%d" % h)
     p.add("R2")
-    if rng.random() < 0.9:
+    if liveness:
+        for _ in range(rng.randint(0, p.n)):
+            p.add(rng.choice(["f%d", "g%d"]) % rng.randrange(p.n))
+        p.add("R2")
+        if rng.random() < 0.5:
+            p.add("Q")
+    if rng.random() < (0.6 if liveness else 0.9):
         p.add("Z0")
         for h in range(p.n):
             p.add("C%d" % h)
+        if liveness and rng.random() < 0.5:
+            p.add("Q", "R2", "Q")
         p.add("Y")
+        if liveness:
+            p.add("Q")
     return p.text()
+
+
+# --------------------------------------------------------------------------
+# C01 (loop liveness) reuses the lifecycle harness in observation mode
+# --------------------------------------------------------------------------
+def liveness_traces(chk, lib, thorough=False, n=None):
+    """Runs the scenario generator (all 13 handle kinds, requests in flight, closes from every position,
+    uv_ref/uv_unref everywhere, uv_loop_close attempts) against harness/c02_life.c built with [lib]
+    (path of a libuv.a produced by vf.build_libuv; flavour taken from its directory name) with C02_OBS=1
+    and returns [(script, trace line)].  Reports nothing itself.
+
+    Observation token (no blanks inside), emitted after every top-level operation, at the entry of every
+    user callback (right after its h/q/x/c token, before '{') and after every uv_run() return:
+      o<active_handles>,<active_reqs.count>,<uv_loop_alive()>,<pending_queue non-empty>,<in close batch>,
+       <loop->closing_handles != NULL>;<k><active><ref><closing><closed>...
+    one 5-character group per handle the harness knows, creation order, k in t i p c a o g T P U x e f;
+    a handle whose close_cb ran or whose init failed is <k>0011 (its memory is gone: not queried).
+    u<r>  result of a uv_run() (NOWAIT; also each run of the drain loop Y);  z<code>  uv_loop_close() (Q
+    in the script, and once at the very end after the harness closed everything).  All other tokens are
+    the C02 trace (see module docstring)."""
+    flavour = "asan" if "lib_asan" in lib else ("ndebug" if "lib_ndebug" in lib else "debug")
+    exe = vf.cc_harness(chk.scratch, "c02_life_obs_" + flavour, ["c02_life.c"], lib=lib, flavour=flavour,
+                        wraps=["write", "writev", "sendmsg", "sendmmsg"])
+    env = dict(os.environ)
+    env["C02_SCRATCH"] = chk.scratch.dir
+    env["C02_OBS"] = "1"
+    env["ASAN_OPTIONS"] = "detect_leaks=0:abort_on_error=0:exitcode=66"
+    if n is None:
+        n = 20000 if thorough else 1500
+    rng = __import__("random").Random(chk.seed * 7919 + 101)
+    corpus_f = os.path.join(vf.VERIF, "corpus", "C02", "cases.txt")
+    corpus = [l.rstrip("\n") for l in open(corpus_f) if l.strip() and not l.startswith("#")] \
+        if os.path.exists(corpus_f) else []
+    cases = corpus + [gen_case(rng, liveness=True) for _ in range(n)]
+    out, rc, err = vf.run_lines([exe], cases, shards=min(vf.JOBS, 16), timeout=900, env=env)
+    if len(out) != len(cases):
+        return []
+    return list(zip(cases, out))
 
 
 # --------------------------------------------------------------------------
